@@ -667,9 +667,15 @@ func (w *World) opMeltQuote(op Op) *Event {
 	var msat uint64
 	amt := op.Amt
 	switch kind {
-	case "int":
+	case "int", "mppint":
 		if q := w.Reg.MintQ[op.Q]; q != nil {
 			request, hash, target, amt = q.Request, q.Hash, op.Q, q.Amt
+			if kind == "mppint" {
+				msat = op.Msat
+				if msat == 0 || msat >= q.Amt*1000 {
+					msat = 1000
+				}
+			}
 		}
 	default:
 		invMsat := amt * 1000
@@ -691,7 +697,7 @@ func (w *World) opMeltQuote(op Op) *Event {
 		unit = "sat"
 	}
 	req := nut05.PostMeltQuoteBolt11Request{Request: request, Unit: unit}
-	if kind == "mpp" {
+	if kind == "mpp" || kind == "mppint" {
 		req.Options = map[string]nut05.MppOption{"mpp": {AmountMsat: msat}}
 	}
 	var q storage.MeltQuote
